@@ -51,6 +51,9 @@ CLAIMED = {
  'C15': dict(cat=TV, tech='resolved visibility, def paths and callees from tcx for a matrix of enum visibilities x vis/name/struct_name parameters; public-surface equality',
    text='For every instance of a matrix {enum visibility} x {vis absent, "", pub(crate), pub} x {name/struct_name given or not} x feature sets that pull in helpers: each requested item exists under the requested name with exactly the requested resolved visibility (default: the enum\'s), the named struct is the one the function returns, every other associated item / field is private to the enum\'s module, the set of trait impls equals the requested one, and delegating features call the user-named item.',
    note='visibility is rustc\'s resolved tcx.visibility; reachability from outside follows from it', ref='5 C15'),
+ 'C16': dict(cat='other', tech='absolute-path lint over all quote! templates (syn, after de-interpolation) with positive/negative fixtures; hostile-context accept witnesses (no_std, no_implicit_prelude, shadowing items/modules/macros); resolved-callee identity between clean and hostile context plus all item rules re-run on the hostile copies',
+   text='(a) every path in every one of the 55 templates must be ::core-absolute, Self/self, an interpolation, a primitive, a template-local binding or imported by `use ::core::..` inside the template; every macro call must go through ::core. (b) ~900 instances covering every feature x mode x shape are recompiled in #![no_std] crates next to user structs, traits, fns, modules and macros named like prelude/core items. (c) on those copies all C01-C08 item rules pass and every derived body resolves to the same core callees as in the clean context - identical resolved code means identical behaviour.',
+   note='the lint is syntactic (method resolution is left to rustc on the witnesses); primitive-type shadowing is outside the property\'s list', ref='5 C16'),
  'C19': dict(cat=TV, tech='resolved signatures from tcx (fn_sig, is_const_fn, type_of, impl_trait_ref) compared with the documented ones for every instance of the configuration corpus',
    text='For every corpus instance (every mode of every moded feature, gapless and with holes, 12 reprs) the documented signature of every requested item is compared with what rustc resolved: parameter and return types, const-ness of into, associated-const types, trait impls with their associated types, the four iterator traits with Item.',
    note='trusts rustc\'s resolved signatures; the configuration quantifier is covered by the corpus', ref='5 C19'),
